@@ -126,7 +126,7 @@ Expected(b, r) == IF PassThrough(r) THEN r ELSE Resolve(b, r)
 
 \* ---------------------------------------------------------------- enumerated values
 AllBaseIds == {"root0", "root", "file", "dir", "query", "deep"}
-AllRefClasses == {"rel", "relqf", "reldir", "dot", "up1", "up2", "rootrel", "schemerel", "query", "empty",
+AllRefClasses == {"rel", "relqf", "reldir", "embedq", "dot", "up1", "up2", "rootrel", "schemerel", "query", "empty",
                   "frag", "data", "js", "http", "https", "badesc", "ctl"}
 AllCarriers == {"a_para", "a_li", "a_figcap", "a_cell", "img_src", "img_srcset", "picture_source_srcset",
                 "video_src", "video_poster", "source_src", "track_src", "img_table", "fig_img"}
@@ -156,6 +156,8 @@ RefOf(cls, leaf) ==
     CASE cls = "rel"       -> Plain("", "", FALSE, <<leaf>>, FALSE)                                 \* leaf
       [] cls = "relqf"     -> Url("", "", FALSE, <<"pix", leaf>>, FALSE, TRUE, "v=1", TRUE, "top", FALSE)  \* pix/leaf?v=1#top
       [] cls = "reldir"    -> Plain("", "", FALSE, <<"sub", leaf>>, TRUE)                           \* sub/leaf/
+      [] cls = "embedq"    -> Url("", "", TRUE, <<"out", leaf>>, FALSE, TRUE, "to=https://other.example.org/a&x=1", FALSE, "", FALSE)
+                              \* /out/leaf?to=https://other.example.org/a&x=1 : a relative reference carrying another URL
       [] cls = "dot"       -> Plain("", "", FALSE, <<".", leaf>>, FALSE)                            \* ./leaf
       [] cls = "up1"       -> Plain("", "", FALSE, <<"..", leaf>>, FALSE)                           \* ../leaf
       [] cls = "up2"       -> Plain("", "", FALSE, <<"..", "..", leaf>>, FALSE)                     \* ../../leaf
@@ -174,7 +176,7 @@ RefOf(cls, leaf) ==
 \* ---------------------------------------------------------------- cases
 Descs == {"none", "x", "w"}
 SrcsetClasses == RefClasses \ {"empty"}            \* a srcset candidate is never empty
-Order == <<"rel", "relqf", "reldir", "dot", "up1", "up2", "rootrel", "schemerel", "query",
+Order == <<"rel", "relqf", "reldir", "embedq", "dot", "up1", "up2", "rootrel", "schemerel", "query",
            "frag", "data", "js", "http", "https", "badesc", "ctl">>
 IndexOf(cls) == CHOOSE k \in 1..Len(Order) : Order[k] = cls
 RECURSIVE RotFrom(_, _)
@@ -299,7 +301,7 @@ ClassesAsStated ==
     phase # "pick" => \A k \in 1..Len(refs) : LET r == refs[k].u  cls == ClassesOf(c)[k] IN
         /\ (cls \in {"frag", "data", "js", "http", "https", "badesc", "ctl"}) = PassThrough(r)
         /\ (cls = "empty") = IsEmptyRef(r)
-        /\ (cls \in {"rel", "relqf", "reldir", "dot", "up1", "up2", "rootrel", "schemerel", "query"}) = IsRelative(r)
+        /\ (cls \in {"rel", "relqf", "reldir", "embedq", "dot", "up1", "up2", "rootrel", "schemerel", "query"}) = IsRelative(r)
 
 \* C06 on the machine: with every kind handed the page URL the output is absolute / unchanged
 OutputAbsolute ==
